@@ -3,7 +3,6 @@
 from __future__ import annotations
 
 import base64
-import binascii
 import html
 import re
 import urllib.parse
@@ -386,7 +385,7 @@ def base64_decode(val: str) -> str:
     """
     try:
         return base64.b64decode(val).decode()
-    except binascii.Error as err:
+    except ValueError as err:
         raise FilterError("invalid base64-encoded string", token=None) from err
 
 
@@ -404,7 +403,7 @@ def base64_url_safe_decode(val: str) -> str:
     """
     try:
         return base64.urlsafe_b64decode(val).decode()
-    except binascii.Error as err:
+    except ValueError as err:
         raise FilterError("invalid base64-encoded string", token=None) from err
 
 
